@@ -396,7 +396,7 @@ def _main(tier, seed, scratch, t0):
         a, b = one_run(ctx, run), one_run(ctx, run)
         if a['ed'] != b['ed'] or a['keys'] != b['keys']:
             common.harness_exit(f'nondeterminism: history {run} of seed {seed} executed twice gave different logs')
-    n = int(os.environ.get('VERIF_RUNS', '20000' if quick else '4000000'))
+    n = int(os.environ.get('VERIF_RUNS', '50000' if quick else '8000000'))
     deadline = time.time() + common.budget_s(120 if quick else 1200)
     results, skipped, _ = common.run_parallel(one_run, ctx, range(n), deadline=deadline, chunk=25)
     keys = set()
@@ -426,7 +426,7 @@ def _main(tier, seed, scratch, t0):
             except Exception as ex:
                 doc['minimised'] = False
                 doc['minimise_error'] = repr(ex)
-        path = common.write_replay(PID, seed, f"{run}-{abs(hash(sig)) % 10 ** 6}", doc)
+        path = common.write_replay(PID, seed, f"{run}-{common.sha(sig.encode())[:8]}", doc)
         reported.append({'signature': sig, 'replay': path, 'what': doc.get('what', '')})
     samples = []
     for run in (0, 1):
@@ -467,3 +467,14 @@ def _main(tier, seed, scratch, t0):
           f'model, {nreq} range requests, {len(keys)} distinct (layout, call, cold/warm, backend) keys, {wall:.0f}s, '
           f'exit {code}')
     return code
+
+
+def selftest_digests(seed, n, scratch):
+    lib = filelib.build(seed, scratch, n_random=4)
+    ctx = {'seed': seed, 'lib': lib}
+
+    def f(c, run):
+        r = one_run(c, run)
+        return r['ed'] + ':' + repr(r['keys']) + ':' + str(r['violation'] and r['violation']['signature'])
+    results, _, _ = common.run_parallel(f, ctx, range(n), chunk=7)
+    return [common.sha(d.encode()) for _, d in sorted(results)]
